@@ -200,6 +200,7 @@ def seqs_case(draw, tier):
 		st.text(alphabet='acgt', min_size=1, max_size=10).map(str.encode),
 		kmer.map(lambda x: (pb + x).lower()),
 		st.binary(min_size=1, max_size=3),
+		st.sampled_from([b' ', b'\n', b'\t', b'\r\n', b'  ', b'\x0b', b'\x0c']),
 		st.sampled_from(NEAR).map(lambda b: bytes([b])),
 		kmer.map(lambda x: pb + x[:-1]),                      # one base short
 		kmer.map(lambda x: R.ref_revcomp(pb + x)[1:]),          # reverse hit one base short
@@ -208,7 +209,7 @@ def seqs_case(draw, tier):
 	def one_seq():
 		body = b''.join(draw(st.lists(frag, min_size=0, max_size=12 if k > 12 else 25)))
 		align = draw(st.sampled_from(['none', 'none', 'fwd_start', 'fwd_end', 'rev_start', 'rev_end', 'fwd_end_short',
-		                              'rev_start_short', 'exact_fwd', 'exact_rev', 'empty', 'short']))
+		                              'rev_start_short', 'exact_fwd', 'exact_rev', 'empty', 'short', 'ws_start', 'ws_end']))
 		x = draw(kmer)
 		if align == 'fwd_start':
 			body = pb + x + body
@@ -226,6 +227,10 @@ def seqs_case(draw, tier):
 			body = pb + x
 		elif align == 'exact_rev':
 			body = R.ref_revcomp(pb + x)
+		elif align == 'ws_start':
+			body = draw(st.sampled_from([b' ', b'\n', b'\t\t'])) + pb + x + body
+		elif align == 'ws_end':
+			body = body + pb + x[:-1] + draw(st.sampled_from([b' ', b'\n']))
 		elif align == 'empty':
 			body = b''
 		elif align == 'short':
